@@ -308,3 +308,1108 @@ Proof.
     exists (2 * (c * nrows g + r) + e). split; [unfold nchan, nwords; nia|]. now apply chan2readout_rc.
   Qed.
 End ChanOrder.
+
+(* ================================================================================================ *)
+(* FindFrameBits on a well-formed buffer                                                             *)
+(* ================================================================================================ *)
+
+Lemma stride4_spec_aux : forall n (l : list Z), (length l <= n)%nat ->
+  stride4 l = map (fun j => znth 0 l (4 * j)) (zrange 0 ((zlen l + 3) / 4)).
+Proof.
+  induction n as [|n IH]; intros l Hl.
+  - destruct l; [reflexivity | cbn [length] in Hl; lia].
+  - destruct l as [|a [|b [|c [|d r]]]]; try reflexivity.
+    cbn [stride4]. rewrite (IH r) by (cbn [length] in Hl; lia).
+    assert (E : (zlen (a :: b :: c :: d :: r) + 3) / 4 = (zlen r + 3) / 4 + 1).
+    { rewrite !zlen_cons. replace (1 + (1 + (1 + (1 + zlen r))) + 3) with (zlen r + 3 + 1 * 4) by lia.
+      now rewrite Z.div_add by lia. }
+    rewrite E.
+    assert (Hk : 0 <= (zlen r + 3) / 4) by (apply Z.div_pos; pose proof (zlen_nonneg r); lia).
+    rewrite (zrange_cons 0 ((zlen r + 3) / 4 + 1)) by lia. cbn [map]. f_equal.
+    replace ((zlen r + 3) / 4 + 1 - 1) with ((zlen r + 3) / 4) by lia.
+    apply map_zrange_ext. intros k Hk'.
+    rewrite znth_cons_S by lia. rewrite znth_cons_S by lia. rewrite znth_cons_S by lia. rewrite znth_cons_S by lia.
+    f_equal. lia.
+Qed.
+
+Lemma stride4_spec (l : list Z) :
+  stride4 l = map (fun j => znth 0 l (4 * j)) (zrange 0 ((zlen l + 3) / 4)).
+Proof. apply stride4_spec_aux with (n := length l). lia. Qed.
+
+(* the loops only look at frame bits *)
+Fixpoint loop1b (seen prev : bool) (i : Z) (l : list bool) : Z :=
+  match l with
+  | [] => 0
+  | x :: r =>
+      if seen then
+        if prev && negb x then loop1b seen true (i + 4) r
+        else if negb prev && x then i
+        else loop1b seen prev (i + 4) r
+      else loop1b (negb x) prev (i + 4) r
+  end.
+Fixpoint loop2b (l : list bool) : Z :=
+  match l with [] => 0 | x :: r => if x then 1 + loop2b r else 0 end.
+Fixpoint loop3b (prev : bool) (i : Z) (l : list bool) : option Z :=
+  match l with
+  | [] => None
+  | x :: r =>
+      if prev && negb x then loop3b false (i + 4) r
+      else if negb prev && x then Some i
+      else loop3b prev (i + 4) r
+  end.
+
+Lemma ffb_loop1_bits l : forall seen prev i, ffb_loop1 seen prev i l = loop1b seen prev i (map fbit l).
+Proof. induction l as [|x l IH]; intros; cbn [ffb_loop1 loop1b map]; [reflexivity|]. now rewrite !IH. Qed.
+Lemma ffb_loop2_bits l : ffb_loop2 l = loop2b (map fbit l).
+Proof. induction l as [|x l IH]; cbn [ffb_loop2 loop2b map]; [reflexivity|]. now rewrite IH. Qed.
+Lemma ffb_loop3_bits l : forall prev i, ffb_loop3 prev i l = loop3b prev i (map fbit l).
+Proof. induction l as [|x l IH]; intros; cbn [ffb_loop3 loop3b map]; [reflexivity|]. now rewrite !IH. Qed.
+
+Lemma loop1b_unseen_true a : forall i rest,
+  loop1b false false i (repeat true a ++ rest) = loop1b false false (i + 4 * Z.of_nat a) rest.
+Proof.
+  induction a as [|a IH]; intros i rest; cbn [repeat app loop1b negb].
+  - f_equal. lia.
+  - rewrite IH. f_equal. lia.
+Qed.
+Lemma loop1b_seen_false a : forall i rest,
+  loop1b true false i (repeat false a ++ rest) = loop1b true false (i + 4 * Z.of_nat a) rest.
+Proof.
+  induction a as [|a IH]; intros i rest; cbn [repeat app loop1b negb andb].
+  - f_equal. lia.
+  - rewrite IH. f_equal. lia.
+Qed.
+Lemma loop2b_true a rest : loop2b (repeat true a ++ false :: rest) = Z.of_nat a.
+Proof. induction a as [|a IH]; cbn [repeat app loop2b]; [reflexivity|]. rewrite IH. lia. Qed.
+Lemma loop3b_false a : forall i rest,
+  loop3b false i (repeat false a ++ true :: rest) = Some (i + 4 * Z.of_nat a).
+Proof.
+  induction a as [|a IH]; intros i rest; cbn [repeat app loop3b negb andb].
+  - f_equal. lia.
+  - rewrite IH. f_equal. lia.
+Qed.
+
+Section FrameBits.
+  Variable g : geom.
+  Hypothesis Hc : 1 <= ncols g.
+  Hypothesis Hr : 2 <= nrows g.
+  Let W := nwords g.
+
+  Lemma W_bounds : 2 * ncols g <= W /\ 2 <= W.
+  Proof. unfold W, nwords. nia. Qed.
+
+  (* frame-bit pattern of a well-formed stream: set exactly in the first ncols words of every frame *)
+  Definition fpat (k : Z) : bool := k mod W <? ncols g.
+
+  (* [b] starts [ph] words into a frame *)
+  Definition phase_wf (ph : Z) (b : list Z) : Prop :=
+    forall k, 0 <= k -> 4 * k + 2 < zlen b -> fbit (znth 0 b (4 * k + 2)) = fpat (k + ph).
+
+  Lemma bits_from ph b k :
+    phase_wf ph b -> 0 <= k -> 4 * k + 2 <= zlen b ->
+    map fbit (stride4 (zskipn (4 * k + 2) b)) = map (fun j => fpat (j + ph)) (zrange k ((zlen b + 1) / 4 - k)).
+  Proof.
+    intros Hwf Hk Hl. rewrite stride4_spec, map_map.
+    rewrite zlen_zskipn by lia.
+    assert (E : (zlen b - (4 * k + 2) + 3) / 4 = (zlen b + 1) / 4 - k).
+    { replace (zlen b - (4 * k + 2) + 3) with (zlen b + 1 + (- k) * 4) by lia.
+      rewrite Z.div_add by lia. lia. }
+    rewrite E. apply map_zrange_ext. intros j Hj.
+    rewrite znth_zskipn by lia.
+    replace (4 * k + 2 + 4 * (0 + j)) with (4 * (k + j) + 2) by lia.
+    rewrite Hwf; [reflexivity | lia |].
+    assert (4 * ((zlen b + 1) / 4) <= zlen b + 1) by (apply Z.mul_div_le; lia). lia.
+  Qed.
+
+  Lemma fpat_row0 k : 0 <= k < ncols g -> forall f, 0 <= f -> fpat (f * W + k) = true.
+  Proof.
+    intros Hk f Hf. unfold fpat. pose proof W_bounds.
+    replace ((f * W + k) mod W) with k; [lia|].
+    apply Z.mod_unique with (q := f); lia.
+  Qed.
+  Lemma fpat_rest k : ncols g <= k < W -> forall f, 0 <= f -> fpat (f * W + k) = false.
+  Proof.
+    intros Hk f Hf. unfold fpat.
+    replace ((f * W + k) mod W) with k; [lia|].
+    apply Z.mod_unique with (q := f); lia.
+  Qed.
+
+  (* an aligned, well-formed buffer with at least 2W+1 visible words: q = W, n = ncols, p = 2W *)
+  Lemma ffb_aligned b :
+    phase_wf 0 b -> 2 * W + 1 <= (zlen b + 1) / 4 ->
+    find_frame_bits b = (W, 2 * W, ncols g, true).
+  Proof.
+    intros Hwf Hcnt. pose proof W_bounds as HW.
+    assert (HL : 4 * (2 * W + 1) <= zlen b + 1).
+    { assert (4 * ((zlen b + 1) / 4) <= zlen b + 1) by (apply Z.mul_div_le; lia). lia. }
+    set (cnt := (zlen b + 1) / 4) in *.
+    unfold find_frame_bits.
+    (* loop 1 *)
+    assert (Eq : ffb_loop1 false false 2 (stride4 (zskipn 2 b)) = 4 * W + 2).
+    { rewrite ffb_loop1_bits. change 2 with (4 * 0 + 2) at 2. rewrite (bits_from 0 b 0 Hwf) by lia.
+      fold cnt. replace (cnt - 0) with (ncols g + ((W - ncols g) + (1 + (cnt - W - 1)))) by lia.
+      rewrite zrange_app, map_app by lia. rewrite zrange_app, map_app by lia. rewrite zrange_app, map_app by lia.
+      rewrite (map_zrange_const _ true 0 (ncols g)).
+      2:{ intros k Hk. replace (k + 0) with (0 * W + k) by lia. apply fpat_row0; lia. }
+      rewrite (map_zrange_const _ false (0 + ncols g) (W - ncols g)).
+      2:{ intros k Hk. replace (k + 0) with (0 * W + k) by lia. apply fpat_rest; lia. }
+      rewrite loop1b_unseen_true.
+      destruct (Z.to_nat (W - ncols g)) as [|a] eqn:Ea; [lia|].
+      cbn [repeat app loop1b negb]. rewrite loop1b_seen_false.
+      replace (zrange (0 + ncols g + (W - ncols g)) 1) with [W] by (replace (0 + ncols g + (W - ncols g)) with W by lia; reflexivity).
+      cbn [map app loop1b]. replace (W + 0) with (1 * W + 0) by lia. rewrite fpat_row0 by lia.
+      cbn [negb andb]. lia. }
+    rewrite Eq.
+    (* loop 2 *)
+    assert (En : ffb_loop2 (stride4 (zskipn (4 * W + 2) b)) = ncols g).
+    { rewrite ffb_loop2_bits. rewrite (bits_from 0 b W Hwf) by lia. fold cnt.
+      replace (cnt - W) with (ncols g + (1 + (cnt - W - ncols g - 1))) by lia.
+      rewrite zrange_app, map_app by lia. rewrite zrange_app, map_app by lia.
+      rewrite (map_zrange_const _ true W (ncols g)).
+      2:{ intros k Hk. replace (k + 0) with (1 * W + (k - W)) by lia. apply fpat_row0; lia. }
+      replace (zrange (W + ncols g) 1) with [W + ncols g] by reflexivity.
+      cbn [map app]. replace (W + ncols g + 0) with (1 * W + ncols g) by lia. rewrite fpat_rest by lia.
+      rewrite loop2b_true. lia. }
+    rewrite En. destruct (ncols g <? 1) eqn:E1; [lia|].
+    (* loop 3 *)
+    assert (Ep : ffb_loop3 true (4 * W + 2 + 4 * ncols g) (stride4 (zskipn (4 * W + 2 + 4 * ncols g) b))
+                 = Some (8 * W + 2)).
+    { rewrite ffb_loop3_bits. replace (4 * W + 2 + 4 * ncols g) with (4 * (W + ncols g) + 2) by lia.
+      rewrite (bits_from 0 b (W + ncols g) Hwf) by lia. fold cnt.
+      replace (cnt - (W + ncols g)) with ((W - ncols g) + (1 + (cnt - 2 * W - 1))) by lia.
+      rewrite zrange_app, map_app by lia. rewrite zrange_app, map_app by lia.
+      rewrite (map_zrange_const _ false (W + ncols g) (W - ncols g)).
+      2:{ intros k Hk. replace (k + 0) with (1 * W + (k - W)) by lia. apply fpat_rest; lia. }
+      replace (zrange (W + ncols g + (W - ncols g)) 1) with [2 * W]
+        by (replace (W + ncols g + (W - ncols g)) with (2 * W) by lia; reflexivity).
+      cbn [map app]. replace (2 * W + 0) with (2 * W + 0) by lia.
+      assert (Ef : fpat (2 * W + 0) = true) by (apply fpat_row0; lia). rewrite Ef.
+      destruct (Z.to_nat (W - ncols g)) as [|a] eqn:Ea; [lia|].
+      cbn [repeat app loop3b negb andb]. rewrite loop3b_false. f_equal. lia. }
+    rewrite Ep.
+    replace ((4 * W + 2) / 4) with W
+      by (replace (4 * W + 2) with (2 + W * 4) by lia; rewrite Z.div_add by lia; reflexivity).
+    replace ((8 * W + 2) / 4) with (2 * W)
+      by (replace (8 * W + 2) with (2 + (2 * W) * 4) by lia; rewrite Z.div_add by lia; reflexivity).
+    reflexivity.
+  Qed.
+End FrameBits.
+
+(* ================================================================================================ *)
+(* slices, 16-bit words                                                                              *)
+(* ================================================================================================ *)
+
+Lemma zlen_zslice {A} (l : list A) a n : 0 <= a -> 0 <= n -> a + n <= zlen l -> zlen (zslice l a n) = n.
+Proof. intros. unfold zslice. rewrite zlen_zfirstn; [reflexivity|]. rewrite zlen_zskipn; lia. Qed.
+
+Lemma znth_zslice {A} (d : A) l a n i : 0 <= a -> 0 <= i < n -> znth d (zslice l a n) i = znth d l (a + i).
+Proof. intros. unfold zslice. rewrite znth_zfirstn by lia. apply znth_zskipn; lia. Qed.
+
+Lemma zslice_app_split {A} (l : list A) a n1 n2 :
+  0 <= a -> 0 <= n1 -> 0 <= n2 -> a + n1 + n2 <= zlen l ->
+  zslice l a (n1 + n2) = zslice l a n1 ++ zslice l (a + n1) n2.
+Proof.
+  intros. destruct l as [|d0 l'] eqn:El.
+  { unfold zlen in *; cbn [length] in *. assert (n1 = 0 /\ n2 = 0 /\ a = 0) as (-> & -> & ->) by lia. reflexivity. }
+  rewrite <- El in *. clear El l'.
+  apply (list_ext_znth d0).
+  - rewrite zlen_app, !zlen_zslice by lia. lia.
+  - intros i Hi. rewrite zlen_zslice in Hi by lia. rewrite znth_zslice by lia.
+    destruct (Z_lt_ge_dec i n1).
+    + rewrite znth_app_l by (rewrite zlen_zslice; lia). now rewrite znth_zslice by lia.
+    + rewrite znth_app_r by (rewrite zlen_zslice; lia). rewrite zlen_zslice by lia.
+      rewrite znth_zslice by lia. f_equal. lia.
+Qed.
+
+Lemma zskipn_zslice {A} (l : list A) a n k :
+  0 <= a -> 0 <= k <= n -> a + n <= zlen l -> zskipn k (zslice l a n) = zslice l (a + k) (n - k).
+Proof.
+  intros. destruct l as [|d0 l'] eqn:El.
+  { unfold zlen in *; cbn [length] in *. assert (n = 0 /\ k = 0 /\ a = 0) as (-> & -> & ->) by lia. reflexivity. }
+  rewrite <- El in *. clear El l'.
+  apply (list_ext_znth d0).
+  - rewrite zlen_zskipn by (rewrite zlen_zslice; lia). rewrite !zlen_zslice by lia. reflexivity.
+  - intros i Hi. rewrite zlen_zskipn in Hi by (rewrite zlen_zslice; lia). rewrite zlen_zslice in Hi by lia.
+    rewrite znth_zskipn by lia. rewrite !znth_zslice by lia. f_equal. lia.
+Qed.
+
+Lemma zslice_mid {A} (l1 c l2 : list A) : zslice (l1 ++ c ++ l2) (zlen l1) (zlen c) = c.
+Proof.
+  unfold zslice. rewrite zskipn_app_exact. unfold zfirstn, zlen. rewrite Nat2Z.id.
+  rewrite firstn_app, firstn_all, Nat.sub_diag. cbn [firstn]. apply app_nil_r.
+Qed.
+
+Lemma zslice_0 {A} (l : list A) a : zslice l a 0 = [].
+Proof. reflexivity. Qed.
+
+Lemma u16s_length_aux : forall n (b : list Z), (length b <= n)%nat -> zlen (u16s b) = zlen b / 2.
+Proof.
+  induction n as [|n IH]; intros b Hb.
+  - destruct b; [reflexivity | cbn [length] in Hb; lia].
+  - destruct b as [|lo [|hi r]]; try reflexivity.
+    cbn [u16s]. rewrite !zlen_cons. rewrite IH by (cbn [length] in Hb; lia).
+    replace (1 + (1 + zlen r)) with (zlen r + 1 * 2) by lia. rewrite Z.div_add by lia. lia.
+Qed.
+Lemma u16s_length b : zlen (u16s b) = zlen b / 2.
+Proof. apply u16s_length_aux with (n := length b). lia. Qed.
+
+Lemma u16s_znth_aux : forall n (b : list Z) k, (length b <= n)%nat -> 0 <= k -> 2 * k + 1 < zlen b ->
+  znth 0 (u16s b) k = znth 0 b (2 * k) + 256 * znth 0 b (2 * k + 1).
+Proof.
+  induction n as [|n IH]; intros b k Hb Hk Hl.
+  - destruct b; [unfold zlen in Hl; cbn [length] in Hl; lia | cbn [length] in Hb; lia].
+  - destruct b as [|lo [|hi r]].
+    + unfold zlen in Hl; cbn [length] in Hl; lia.
+    + unfold zlen in Hl; cbn [length] in Hl; lia.
+    + cbn [u16s]. destruct (Z.eq_dec k 0) as [->|Hk0].
+      * reflexivity.
+      * rewrite znth_cons_S by lia. rewrite (IH r (k - 1)); [| cbn [length] in Hb; lia | lia | rewrite !zlen_cons in Hl; lia].
+        rewrite (znth_cons_S 0 lo) by lia. rewrite (znth_cons_S 0 hi) by lia.
+        rewrite (znth_cons_S 0 lo (hi :: r) (2 * k + 1)) by lia. rewrite (znth_cons_S 0 hi r (2 * k + 1 - 1)) by lia.
+        f_equal; [f_equal; lia | f_equal; f_equal; lia].
+Qed.
+Lemma u16s_znth b k : 0 <= k -> 2 * k + 1 < zlen b ->
+  znth 0 (u16s b) k = znth 0 b (2 * k) + 256 * znth 0 b (2 * k + 1).
+Proof. apply u16s_znth_aux with (n := length b). lia. Qed.
+
+(* ================================================================================================ *)
+(* reader_frame_exact: one tick, then every chunking                                                 *)
+(* ================================================================================================ *)
+
+Section ReaderExact.
+  Variable g : geom.
+  Hypothesis Hc : 1 <= ncols g.
+  Hypothesis Hr : 2 <= nrows g.
+  Variable S : list Z.
+  Variable o : Z.                                  (* the frames are aligned from stream byte o on *)
+  Hypothesis Ho : 0 <= o.
+  Hypothesis Hwf : frame_bits_wf_from g S o.
+  Let W := nwords g.
+  Let fs := fsize g.
+
+  Lemma fs_eq : fs = 4 * W. Proof. reflexivity. Qed.
+  Lemma W_pos : 2 <= W. Proof. unfold W, nwords. nia. Qed.
+
+  Lemma aligned_slice_phase R L :
+    o <= R -> (R - o) mod fs = 0 -> 0 <= L -> R + L <= zlen S -> phase_wf g 0 (zslice S R L).
+  Proof.
+    intros HR Hmod HL Hlen k Hk Hk2. rewrite zlen_zslice in Hk2 by lia.
+    rewrite znth_zslice by lia. pose proof W_pos as HW.
+    assert (Ef : R - o = 4 * (W * ((R - o) / fs))).
+    { pose proof (Z.div_mod (R - o) fs ltac:(rewrite fs_eq; lia)). rewrite Hmod in H. rewrite fs_eq in *. lia. }
+    replace (R + (4 * k + 2)) with (o + 4 * (k + W * ((R - o) / fs)) + 2) by lia.
+    change fbit with bit0. rewrite Hwf.
+    - unfold fpat. fold W. replace (k + 0) with k by lia.
+      rewrite (Z.mul_comm W). now rewrite Z_mod_plus_full.
+    - assert (0 <= (R - o) / fs) by (apply Z.div_pos; rewrite ?fs_eq; lia). nia.
+    - lia.
+  Qed.
+
+  Lemma reader_tick_aligned pend chunk stamp R L :
+    o <= R -> (R - o) mod fs = 0 -> 0 <= L -> R + L <= zlen S ->
+    pend ++ chunk = zslice S R L ->
+    reader_tick g pend chunk stamp =
+      if L <? 3 * fs then {| t_pend := zslice S R L; t_rels := []; t_out := TSmall |}
+      else {| t_pend := zslice S (R + (L / fs) * fs) (L - (L / fs) * fs); t_rels := [(L / fs) * fs];
+              t_out := TBuf {| bm_data := exact_data g S R (L / fs); bm_stamp := stamp; bm_drop := false |} |}.
+  Proof.
+    intros HR Hmod HL Hlen Hb. unfold reader_tick. rewrite Hb. fold fs.
+    rewrite zlen_zslice by lia. destruct (L <? 3 * fs) eqn:E3; [reflexivity|].
+    pose proof W_pos as HW. assert (Hfs : fs = 4 * W) by reflexivity.
+    set (b := zslice S R L) in *.
+    assert (Hph : phase_wf g 0 b) by (now apply aligned_slice_phase).
+    assert (Hzb : zlen b = L) by (unfold b; now rewrite zlen_zslice by lia).
+    assert (Hcnt : 2 * W + 1 <= (zlen b + 1) / 4).
+    { rewrite Hzb. apply Z.div_le_lower_bound; lia. }
+    rewrite (ffb_aligned g Hc Hr b Hph Hcnt). fold W.
+    destruct (ncols g =? 0) eqn:E0; [lia|].
+    replace (Z.quot (2 * W - W) (ncols g)) with (nrows g).
+    2:{ replace (2 * W - W) with (nrows g * ncols g) by (unfold W, nwords; lia). now rewrite Z.quot_mul by lia. }
+    rewrite !Z.eqb_refl. cbn [negb orb].
+    (* whole-frame demux *)
+    unfold tick_demux. fold fs. rewrite Hzb.
+    set (m := L / fs).
+    assert (Hm3 : 3 <= m) by (unfold m; apply Z.div_le_lower_bound; lia).
+    assert (Hmfs : m * fs <= L) by (unfold m; rewrite Z.mul_comm; apply Z.mul_div_le; lia).
+    destruct (m =? 0) eqn:Em0; [lia|].
+    rewrite u16s_length, Hzb.
+    assert (Hnch : nchan g = 2 * W) by reflexivity.
+    assert (Hbuf : m * nchan g <= L / 2) by (apply Z.div_le_lower_bound; lia).
+    destruct (L / 2 <? m * nchan g) eqn:Eb; [lia|].
+    f_equal.
+    - unfold b. rewrite zskipn_zslice by lia. reflexivity.
+    - f_equal. f_equal.
+      unfold demux, exact_data. apply map_ext_in. intros i Hi. apply in_zrange in Hi.
+      apply map_ext_in. intros j Hj. apply in_zrange in Hj.
+      assert (Hidx : 2 * (i + j * nchan g) + 1 < L) by nia.
+      rewrite u16s_znth by (rewrite ?Hzb; lia).
+      unfold b. rewrite !znth_zslice by lia. unfold u16_at. fold fs.
+      f_equal; [f_equal; lia | f_equal; f_equal; lia].
+  Qed.
+
+  Lemma reader_run_exact_gen : forall chunks S1 R pend,
+    S = S1 ++ concat (map fst chunks) ->
+    o <= R <= zlen S1 -> (R - o) mod fs = 0 ->
+    pend = zslice S R (zlen S1 - R) ->
+    reader_run g pend chunks = exact_run g S (zlen S1) R chunks.
+  Proof.
+    induction chunks as [|[c stamp] rest IH]; intros S1 R pend HS HR Hmod Hp; [reflexivity|].
+    cbn [reader_run exact_run]. cbn [map concat fst] in HS.
+    assert (HlenS : zlen S = zlen S1 + zlen c + zlen (concat (map fst rest))) by (rewrite HS, !zlen_app; lia).
+    pose proof (zlen_nonneg c) as Hc0. pose proof (zlen_nonneg (concat (map fst rest))) as Hr0.
+    assert (Hb : pend ++ c = zslice S R (zlen S1 + zlen c - R)).
+    { replace (zlen S1 + zlen c - R) with ((zlen S1 - R) + zlen c) by lia.
+      rewrite zslice_app_split by lia. rewrite <- Hp. f_equal.
+      replace (R + (zlen S1 - R)) with (zlen S1) by lia. rewrite HS. now rewrite zslice_mid. }
+    rewrite (reader_tick_aligned pend c stamp R (zlen S1 + zlen c - R)) by (auto; lia).
+    fold fs. destruct (zlen S1 + zlen c - R <? 3 * fs) eqn:E3; cbn [t_pend]; f_equal.
+    - rewrite <- zlen_app. apply IH.
+      + rewrite HS. now rewrite app_assoc.
+      + rewrite zlen_app. lia.
+      + assumption.
+      + rewrite zlen_app. reflexivity.
+    - pose proof W_pos. assert (Hfs : fs = 4 * W) by reflexivity.
+      set (L := zlen S1 + zlen c - R) in *. set (m := L / fs).
+      assert (Hmfs : m * fs <= L) by (unfold m; rewrite Z.mul_comm; apply Z.mul_div_le; lia).
+      assert (0 <= m) by (unfold m; apply Z.div_pos; lia).
+      rewrite <- zlen_app. apply IH.
+      + rewrite HS. now rewrite app_assoc.
+      + rewrite zlen_app. nia.
+      + replace (R + m * fs - o) with (R - o + m * fs) by lia. rewrite Z_mod_plus_full. assumption.
+      + rewrite zlen_app. f_equal. lia.
+  Qed.
+
+End ReaderExact.
+
+Lemma reader_frame_exact_proof :
+  forall g, 1 <= ncols g -> 2 <= nrows g ->
+  forall S, frame_bits_wf g S ->
+  forall chunks, S = concat (map fst chunks) ->
+    reader_run g [] chunks = exact_run g S 0 0 chunks.
+Proof.
+  intros g Hc Hr S Hwf chunks HS.
+  apply (reader_run_exact_gen g Hc Hr S 0 ltac:(lia)) with (S1 := []) (R := 0).
+  - intros k Hk Hl. replace (0 + 4 * k + 2) with (4 * k + 2) in * by lia. now apply Hwf.
+  - assumption.
+  - unfold zlen; cbn [length]; lia.
+  - reflexivity.
+  - reflexivity.
+Qed.
+
+(* ================================================================================================ *)
+(* fb_retard_mix                                                                                     *)
+(* ================================================================================================ *)
+
+Lemma mix_step_value s last f e : mix_step s last f e = (mask3 f, mix_value s last e).
+Proof. unfold mix_step, mix_value. destruct (s =? 0)%float; reflexivity. Qed.
+
+Lemma mix_retard_exp s : forall fbs errs last, zlen fbs = zlen errs ->
+  mix_retard s last fbs errs = (last_cleared last fbs, exp_fb s last fbs errs).
+Proof.
+  induction fbs as [|f fr IH]; intros [|e er] last Hl; try reflexivity;
+    try (unfold zlen in Hl; cbn [length] in Hl; lia).
+  cbn [mix_retard exp_fb]. rewrite mix_step_value. rewrite IH by (rewrite !zlen_cons in Hl; lia). reflexivity.
+Qed.
+
+Lemma exp_fb_app s : forall f1 e1 p f2 e2, zlen f1 = zlen e1 ->
+  exp_fb s p (f1 ++ f2) (e1 ++ e2) = exp_fb s p f1 e1 ++ exp_fb s (last_cleared p f1) f2 e2.
+Proof.
+  induction f1 as [|f fr IH]; intros [|e er] p f2 e2 Hl; try reflexivity;
+    try (unfold zlen in Hl; cbn [length] in Hl; lia).
+  cbn [app exp_fb]. rewrite IH by (rewrite !zlen_cons in Hl; lia). reflexivity.
+Qed.
+
+Lemma zlen_exp_fb s : forall fbs errs p, zlen fbs = zlen errs -> zlen (exp_fb s p fbs errs) = zlen fbs.
+Proof.
+  induction fbs as [|f fr IH]; intros [|e er] p Hl; try reflexivity;
+    try (unfold zlen in Hl; cbn [length] in Hl; lia).
+  cbn [exp_fb]. rewrite !zlen_cons. rewrite IH by (rewrite !zlen_cons in Hl; lia). reflexivity.
+Qed.
+
+Lemma fb_retard_mix_blocks s : forall blocks last,
+  Forall (fun b => zlen (fst b) = zlen (snd b)) blocks ->
+  mix_blocks s last blocks = exp_fb s last (concat (map fst blocks)) (concat (map snd blocks)).
+Proof.
+  induction blocks as [|[f e] r IH]; intros last HF; [reflexivity|].
+  inversion HF as [|? ? Hfe HF']; subst. cbn [fst snd] in Hfe.
+  cbn [mix_blocks map concat fst snd]. rewrite mix_retard_exp by assumption.
+  rewrite exp_fb_app by assumption. f_equal. now apply IH.
+Qed.
+
+(* out[n] = mix_value s (cleared fb[n-1]) err[n] *)
+Lemma exp_fb_nth s : forall fbs errs p n, zlen fbs = zlen errs -> 0 <= n < zlen fbs ->
+  znth 0 (exp_fb s p fbs errs) n =
+  mix_value s (if n =? 0 then p else mask3 (znth 0 fbs (n - 1))) (znth 0 errs n).
+Proof.
+  induction fbs as [|f fr IH]; intros [|e er] p n Hl Hn;
+    try (unfold zlen in Hl, Hn; cbn [length] in Hl, Hn; lia).
+  cbn [exp_fb]. destruct (n =? 0) eqn:E0.
+  - assert (n = 0) by lia. subst. reflexivity.
+  - rewrite !zlen_cons in *. rewrite znth_cons_S by lia. rewrite IH by lia.
+    rewrite (znth_cons_S 0 e) by lia.
+    destruct (n - 1 =? 0) eqn:E1.
+    + assert (n = 1) by lia. subst. reflexivity.
+    + rewrite (znth_cons_S 0 f) by lia. reflexivity.
+Qed.
+
+Lemma mask3_repr x : mask3 x = 4 * ((x / 4) mod 16384).
+Proof.
+  unfold mask3. apply Z.bits_inj'. intros n Hn. rewrite Z.land_spec.
+  change 65532 with (Z.shiftl (Z.ones 14) 2). rewrite Z.shiftl_spec by lia.
+  replace (4 * ((x / 4) mod 16384)) with (((x / 2 ^ 2) mod 2 ^ 14) * 2 ^ 2) by (change (2 ^ 2) with 4; change (2 ^ 14) with 16384; lia).
+  destruct (Z_lt_ge_dec n 2) as [Hlt|Hge].
+  - rewrite Z.mul_pow2_bits_low by lia. rewrite (Z.testbit_neg_r _ (n - 2)) by lia. apply andb_false_r.
+  - rewrite Z.mul_pow2_bits by lia.
+    destruct (Z_lt_ge_dec (n - 2) 14) as [H14|H14].
+    + rewrite Z.ones_spec_low by lia. rewrite Z.mod_pow2_bits_low by lia.
+      rewrite Z.div_pow2_bits by lia. rewrite andb_true_r. f_equal. lia.
+    + rewrite Z.ones_spec_high by lia. rewrite Z.mod_pow2_bits_high by lia. apply andb_false_r.
+Qed.
+
+Lemma mask3_props x : mask3 x mod 4 = 0 /\ 0 <= mask3 x <= 65532.
+Proof.
+  rewrite mask3_repr. pose proof (Z.mod_pos_bound (x / 4) 16384 ltac:(lia)). split; [|lia].
+  rewrite Z.mul_comm. apply Z_mod_mult.
+Qed.
+
+Lemma mix_value_range s p e : 0 <= p <= 65535 -> 0 <= mix_value s p e <= 65535.
+Proof.
+  intros Hp. unfold mix_value. destruct (s =? 0)%float; [assumption|].
+  destruct (65535 <=? _)%float; [lia|]. destruct (_ <? 0)%float; [lia|].
+  pose proof (Z.mod_pos_bound (roundint (z2f (int16 e) * s + z2f p)) 65536 ltac:(lia)). lia.
+Qed.
+
+(* ================================================================================================ *)
+(* ext_trig_exact                                                                                    *)
+(* ================================================================================================ *)
+
+Lemma rising_edges l : forall last, rising last l = (last_flag last l, edges last l).
+Proof.
+  induction l as [|[s v] r IH]; intros last; [reflexivity|].
+  cbn [rising last_flag edges]. rewrite IH. destruct (s && negb last); reflexivity.
+Qed.
+
+Lemma edges_app l1 : forall last l2,
+  edges last (l1 ++ l2) = edges last l1 ++ edges (last_flag last l1) l2.
+Proof.
+  induction l1 as [|[s v] r IH]; intros last l2; [reflexivity|].
+  cbn [app edges last_flag]. rewrite IH. destruct (s && negb last); reflexivity.
+Qed.
+
+Lemma last_flag_app l1 : forall last l2, last_flag last (l1 ++ l2) = last_flag (last_flag last l1) l2.
+Proof. induction l1 as [|[s v] r IH]; intros; [reflexivity|]. cbn [app last_flag]. apply IH. Qed.
+
+Lemma flat_map_ext_in {A B} (f g : A -> list B) l : (forall x, In x l -> f x = g x) -> flat_map f l = flat_map g l.
+Proof.
+  induction l as [|x l IH]; intros H; [reflexivity|]. cbn [flat_map]. rewrite H by now left.
+  f_equal. apply IH. intros; apply H; now right.
+Qed.
+
+Lemma znth_exact_data g S R m i j :
+  0 <= i < nchan g -> 0 <= j < m ->
+  znth 0 (znth [] (exact_data g S R m) i) j = u16_at S (R + j * fsize g + 2 * i).
+Proof.
+  intros Hi Hj. unfold exact_data.
+  rewrite (znth_map _ 0) by (rewrite zlen_zrange; lia). rewrite znth_zrange by lia.
+  rewrite (znth_map _ 0) by (rewrite zlen_zrange; lia). rewrite znth_zrange by lia.
+  replace (0 + j) with j by lia. replace (0 + i) with i by lia. reflexivity.
+Qed.
+
+(* the scan of the model on exactly demultiplexed frames = the rising edges of the per-row flag, read in
+   column 0 of every row, counted frame*nrows+row -- for every number of columns *)
+Lemma ext_scan_exact g S R m next last :
+  1 <= ncols g -> 1 <= nrows g -> 0 <= m ->
+  ext_scan g (exact_data g S R m) m next last =
+    (last_flag last (row_flags g S R m next), edges last (row_flags g S R m next)).
+Proof.
+  intros Hc Hr Hm. unfold ext_scan. rewrite rising_edges.
+  assert (E : flat_map (fun frame => map (fun row => (ext_flag (exact_data g S R m) (row * 2 * ncols g + 1) frame,
+                                                     (frame + next) * nrows g + row)) (zrange 0 (nrows g)))
+                       (zrange 0 m) = row_flags g S R m next).
+  { unfold row_flags. apply flat_map_ext_in. intros j Hj. apply in_zrange in Hj.
+    apply map_ext_in. intros r Hr'. apply in_zrange in Hr'.
+    f_equal; [|lia]. unfold ext_flag, bit1, fb_at.
+    rewrite znth_exact_data by (unfold nchan, nwords; nia). f_equal. f_equal. f_equal. lia. }
+  now rewrite E.
+Qed.
+
+Lemma flat_map_app' {A B} (f : A -> list B) l1 l2 : flat_map f (l1 ++ l2) = flat_map f l1 ++ flat_map f l2.
+Proof. induction l1 as [|x l IH]; [reflexivity|]. cbn [app flat_map]. now rewrite IH, app_assoc. Qed.
+
+(* consecutive blocks: the flags of the merged block are those of the two blocks one after the other *)
+Lemma row_flags_app g S R m1 m2 first :
+  0 <= m1 -> 0 <= m2 ->
+  row_flags g S R (m1 + m2) first =
+  row_flags g S R m1 first ++ row_flags g S (R + m1 * fsize g) m2 (first + m1).
+Proof.
+  intros H1 H2. unfold row_flags. rewrite zrange_app by lia. rewrite flat_map_app'. f_equal.
+  replace (zrange (0 + m1) m2) with (map (fun j => m1 + j) (zrange 0 m2)).
+  2:{ apply (list_ext_znth 0).
+      - rewrite zlen_map, !zlen_zrange by lia. reflexivity.
+      - intros i Hi. rewrite zlen_map, zlen_zrange in Hi by lia.
+        rewrite (znth_map _ 0) by (rewrite zlen_zrange; lia). rewrite !znth_zrange by lia. lia. }
+  rewrite flat_map_concat_map, map_map, <- flat_map_concat_map.
+  apply flat_map_ext_in. intros j Hj. apply map_ext_in. intros r Hr.
+  f_equal; [f_equal; f_equal; lia | lia].
+Qed.
+
+(* ================================================================================================ *)
+(* frames_monotone                                                                                   *)
+(* ================================================================================================ *)
+
+Lemma dist_chans_first_len data tbl : forall mixes ch m0,
+  (forall d, In d data -> zlen d = m0) -> 0 <= m0 -> ch mod 2 = 0 ->
+  zlen (znth [] (snd (dist_chans data tbl ch mixes)) 0) <= m0.
+Proof.
+  intros mixes ch m0 Hall Hm0 Hev. destruct mixes as [|m mr]; [cbn; lia|].
+  cbn [dist_chans]. destruct (ch mod 2 =? 1) eqn:E; [lia|].
+  destruct (dist_chans data tbl (ch + 1) mr) as [ms ds]. cbn [snd]. rewrite znth_cons_0.
+  set (idx := znth 0 tbl ch). unfold znth. destruct (idx <? 0); [cbn; lia|].
+  destruct (nth_in_or_default (Z.to_nat idx) data []) as [Hin|Hd].
+  - rewrite (Hall _ Hin). lia.
+  - rewrite Hd. cbn. lia.
+Qed.
+
+Section Monotone.
+  Variable est : Z -> Z -> Z.
+  Hypothesis est_nonneg : forall p c, 0 <= est p c.
+  Variable g : geom.
+  Variable nsamp : Z.
+
+  Lemma distribute_next st m st' b :
+    distribute est g st m = Ok (st', b) ->
+    d_next st <= b_first b /\ b_first b + block_len b <= d_next st'.
+  Proof.
+    unfold distribute, distribute_gen. destruct (shape_ok g (bm_data m)) eqn:Esh; cbn [negb]; [|discriminate].
+    set (fu := zlen (znth [] (bm_data m) 0)).
+    set (dropped := if bm_drop m then est (d_prev st) (bm_stamp m) else 0).
+    destruct (ext_scan g (bm_data m) fu (d_next st + dropped) (d_ext st)) as [ext' trig].
+    destruct (dist_chans (bm_data m) (chan2readout g) 0 (d_mix st)) as [mix' segs] eqn:Ed.
+    intros H. inversion H; subst; clear H. cbn [b_first d_next block_len b_data].
+    assert (Hd : 0 <= dropped) by (unfold dropped; destruct (bm_drop m); [apply est_nonneg | lia]).
+    assert (Hseg : zlen (znth [] segs 0) <= fu).
+    { replace segs with (snd (dist_chans (bm_data m) (chan2readout g) 0 (d_mix st))) by now rewrite Ed.
+      apply dist_chans_first_len; [| apply zlen_nonneg | reflexivity].
+      unfold shape_ok in Esh. apply andb_true_iff in Esh as [_ Hall]. rewrite forallb_forall in Hall.
+      intros d Hd'. specialize (Hall d Hd'). fold fu in Hall. lia. }
+    unfold block_len. cbn [b_data]. lia.
+  Qed.
+
+  Lemma frames_monotone_gen : forall ops st,
+    mono_from (d_next (s_d st)) (blocks_of (run est true g nsamp st ops)).
+  Proof.
+    induction ops as [|o rest IH]; intros st; [exact I|].
+    cbn [run]. destruct (step est true g nsamp st o) as [st' r] eqn:Es.
+    assert (Hstep : match r with
+                    | RTick _ (Some b) => d_next (s_d st) <= b_first b /\ b_first b + block_len b <= d_next (s_d st')
+                    | _ => d_next (s_d st') = d_next (s_d st)
+                    end).
+    { unfold step in Es. destruct o as [bytes stamp|chans fracs].
+      - destruct (t_out (reader_tick g (s_pend st) bytes stamp)) eqn:Eo; inversion Es; subst; try reflexivity.
+        destruct (distribute_gen est true g (s_d st) m) as [[d' blk]|] eqn:Edist.
+        + inversion H0; subst. cbn [s_d]. now apply (distribute_next (s_d st) m).
+        + inversion H0; subst. reflexivity.
+      - destruct (mix_valid _ chans); [destruct (mix_apply _ _ _ _)|]; inversion Es; subst; reflexivity. }
+    assert (Hmono_weak : forall n n' bs, n <= n' -> mono_from n' bs -> mono_from n bs).
+    { intros n n' [|b bs] Hle Hm; [exact I|]. cbn [mono_from] in *. split; [lia | tauto]. }
+    destruct r as [rels [b|]|ok|k]; cbn [blocks_of flat_map app].
+    - destruct Hstep as [H1 H2]. cbn [mono_from]. split; [assumption|].
+      apply (Hmono_weak _ (d_next (s_d st'))); [assumption | apply IH].
+    - rewrite <- Hstep. apply IH.
+    - rewrite <- Hstep. apply IH.
+    - exact I.
+  Qed.
+End Monotone.
+
+Lemma fb_retard_mix_proof :
+  forall scale blocks last0,
+    Forall (fun b => zlen (fst b) = zlen (snd b)) blocks ->
+    let fbs := concat (map fst blocks) in
+    let errs := concat (map snd blocks) in
+    mix_blocks scale last0 blocks = exp_fb scale last0 fbs errs /\
+    (forall n, 0 <= n < zlen fbs ->
+       znth 0 (exp_fb scale last0 fbs errs) n =
+       mix_value scale (if n =? 0 then last0 else mask3 (znth 0 fbs (n - 1))) (znth 0 errs n)) /\
+    (forall p e, 0 <= p <= 65535 -> 0 <= mix_value scale p e <= 65535) /\
+    (forall p e, (scale =? 0)%float = true -> mix_value scale p e = p) /\
+    (forall p e, (scale =? 0)%float = false ->
+       let x := (z2f (int16 e) * scale + z2f p)%float in
+       mix_value scale p e = if (65535 <=? x)%float then 65535 else if (x <? 0)%float then 0
+                             else roundint x mod 65536) /\
+    (forall v, mask3 v mod 4 = 0 /\ 0 <= mask3 v <= 65532).
+Proof.
+  intros scale blocks last0 HF fbs errs.
+  assert (Hlen : zlen fbs = zlen errs).
+  { unfold fbs, errs. clear -HF. induction HF as [|[f e] r Hfe _ IH]; [reflexivity|].
+    cbn [map concat fst snd] in *. rewrite !zlen_app. lia. }
+  split; [now apply fb_retard_mix_blocks|]. split; [intros; now apply exp_fb_nth|].
+  split; [intros; now apply mix_value_range|]. split.
+  - intros p e Hs. unfold mix_value. now rewrite Hs.
+  - split; [|apply mask3_props]. intros p e Hs x. unfold mix_value. now rewrite Hs.
+Qed.
+
+Lemma ext_trig_exact_proof :
+  forall g S R m first last,
+    1 <= ncols g -> 1 <= nrows g -> 0 <= m ->
+    ext_scan g (exact_data g S R m) m first last =
+      (last_flag last (row_flags g S R m first), edges last (row_flags g S R m first)) /\
+    (forall m2, 0 <= m2 ->
+       row_flags g S R (m + m2) first =
+       row_flags g S R m first ++ row_flags g S (R + m * fsize g) m2 (first + m)) /\
+    (forall l1 l2, edges last (l1 ++ l2) = edges last l1 ++ edges (last_flag last l1) l2).
+Proof.
+  intros. split; [now apply ext_scan_exact|]. split; [intros; now apply row_flags_app|].
+  intros; apply edges_app.
+Qed.
+
+(* ================================================================================================ *)
+(* realign_after_gap_partial: the tick that meets a word-aligned gap in its first frame               *)
+(* ================================================================================================ *)
+
+Lemma bits_from_gen (beta : Z -> bool) b k :
+  (forall j, 0 <= j -> 4 * j + 2 < zlen b -> fbit (znth 0 b (4 * j + 2)) = beta j) ->
+  0 <= k -> 4 * k + 2 <= zlen b ->
+  map fbit (stride4 (zskipn (4 * k + 2) b)) = map beta (zrange k ((zlen b + 1) / 4 - k)).
+Proof.
+  intros Hwf Hk Hl. rewrite stride4_spec, map_map. rewrite zlen_zskipn by lia.
+  assert (E : (zlen b - (4 * k + 2) + 3) / 4 = (zlen b + 1) / 4 - k).
+  { replace (zlen b - (4 * k + 2) + 3) with (zlen b + 1 + (- k) * 4) by lia. rewrite Z.div_add by lia. lia. }
+  rewrite E. apply map_zrange_ext. intros j Hj. rewrite znth_zskipn by lia.
+  replace (4 * k + 2 + 4 * (0 + j)) with (4 * (k + j) + 2) by lia.
+  rewrite Hwf; [reflexivity | lia |].
+  assert (4 * ((zlen b + 1) / 4) <= zlen b + 1) by (apply Z.mul_div_le; lia). lia.
+Qed.
+
+Section Realign.
+  Variable g : geom.
+  Hypothesis Hc : 1 <= ncols g.
+  Hypothesis Hr : 2 <= nrows g.
+  Let W := nwords g.
+  Let fs := fsize g.
+
+  (* frame bits: set in words [0,a), clear in [a,q) (at least one), and from word q on the frames are aligned *)
+  Lemma ffb_pattern (beta : Z -> bool) b a q :
+    (forall j, 0 <= j -> 4 * j + 2 < zlen b -> fbit (znth 0 b (4 * j + 2)) = beta j) ->
+    0 <= a < q ->
+    (forall j, 0 <= j < a -> beta j = true) ->
+    (forall j, a <= j < q -> beta j = false) ->
+    (forall j, 0 <= j -> beta (q + j) = fpat g j) ->
+    q + W + 1 <= (zlen b + 1) / 4 ->
+    find_frame_bits b = (q, q + W, ncols g, true).
+  Proof.
+    intros Hb Haq Htrue Hfalse Hal Hcnt. pose proof (W_bounds g Hc Hr) as HW. fold W in HW.
+    assert (HL : 4 * (q + W + 1) <= zlen b + 1).
+    { assert (4 * ((zlen b + 1) / 4) <= zlen b + 1) by (apply Z.mul_div_le; lia). lia. }
+    set (cnt := (zlen b + 1) / 4) in *.
+    assert (Hbq : beta q = true).
+    { pose proof (Hal 0 ltac:(lia)) as H0. replace (q + 0) with q in H0 by lia. rewrite H0.
+      replace 0 with (0 * nwords g + 0) by lia. apply fpat_row0; lia. }
+    unfold find_frame_bits.
+    assert (Eq : ffb_loop1 false false 2 (stride4 (zskipn 2 b)) = 4 * q + 2).
+    { rewrite ffb_loop1_bits. change 2 with (4 * 0 + 2) at 2. rewrite (bits_from_gen beta b 0 Hb) by lia.
+      fold cnt. replace (cnt - 0) with (a + ((q - a) + (1 + (cnt - q - 1)))) by lia.
+      rewrite zrange_app, map_app by lia. rewrite zrange_app, map_app by lia. rewrite zrange_app, map_app by lia.
+      rewrite (map_zrange_const _ true 0 a) by (intros; apply Htrue; lia).
+      rewrite (map_zrange_const _ false (0 + a) (q - a)) by (intros; apply Hfalse; lia).
+      rewrite loop1b_unseen_true.
+      destruct (Z.to_nat (q - a)) as [|n'] eqn:Ea; [lia|].
+      cbn [repeat app loop1b negb]. rewrite loop1b_seen_false.
+      replace (zrange (0 + a + (q - a)) 1) with [q] by (replace (0 + a + (q - a)) with q by lia; reflexivity).
+      cbn [map app loop1b]. rewrite Hbq. cbn [negb andb]. lia. }
+    rewrite Eq.
+    assert (En : ffb_loop2 (stride4 (zskipn (4 * q + 2) b)) = ncols g).
+    { rewrite ffb_loop2_bits. rewrite (bits_from_gen beta b q Hb) by lia. fold cnt.
+      replace (cnt - q) with (ncols g + (1 + (cnt - q - ncols g - 1))) by lia.
+      rewrite zrange_app, map_app by lia. rewrite zrange_app, map_app by lia.
+      rewrite (map_zrange_const _ true q (ncols g)).
+      2:{ intros k Hk. replace k with (q + (k - q)) by lia. rewrite Hal by lia.
+          replace (k - q) with (0 * nwords g + (k - q)) by lia. apply fpat_row0; lia. }
+      replace (zrange (q + ncols g) 1) with [q + ncols g] by reflexivity.
+      cbn [map app]. rewrite Hal by lia.
+      replace (fpat g (ncols g)) with false
+        by (symmetry; replace (ncols g) with (0 * nwords g + ncols g) at 1 by lia; apply fpat_rest; fold W; lia).
+      rewrite loop2b_true. lia. }
+    rewrite En. destruct (ncols g <? 1) eqn:E1; [lia|].
+    assert (Ep : ffb_loop3 true (4 * q + 2 + 4 * ncols g) (stride4 (zskipn (4 * q + 2 + 4 * ncols g) b))
+                 = Some (4 * (q + W) + 2)).
+    { rewrite ffb_loop3_bits. replace (4 * q + 2 + 4 * ncols g) with (4 * (q + ncols g) + 2) by lia.
+      rewrite (bits_from_gen beta b (q + ncols g) Hb) by lia. fold cnt.
+      replace (cnt - (q + ncols g)) with ((W - ncols g) + (1 + (cnt - q - W - 1))) by lia.
+      rewrite zrange_app, map_app by lia. rewrite zrange_app, map_app by lia.
+      rewrite (map_zrange_const _ false (q + ncols g) (W - ncols g)).
+      2:{ intros k Hk. replace k with (q + (k - q)) by lia. rewrite Hal by lia.
+          replace (k - q) with (0 * nwords g + (k - q)) by lia. apply fpat_rest; fold W; lia. }
+      replace (zrange (q + ncols g + (W - ncols g)) 1) with [q + W]
+        by (replace (q + ncols g + (W - ncols g)) with (q + W) by lia; reflexivity).
+      cbn [map app]. rewrite Hal by lia.
+      replace (fpat g W) with true
+        by (symmetry; replace W with (1 * nwords g + 0) by (unfold W; lia); apply fpat_row0; lia).
+      destruct (Z.to_nat (W - ncols g)) as [|n'] eqn:Ea; [lia|].
+      cbn [repeat app loop3b negb andb]. rewrite loop3b_false. f_equal. lia. }
+    rewrite Ep.
+    replace ((4 * q + 2) / 4) with q
+      by (replace (4 * q + 2) with (2 + q * 4) by lia; rewrite Z.div_add by lia; reflexivity).
+    replace ((4 * (q + W) + 2) / 4) with (q + W)
+      by (replace (4 * (q + W) + 2) with (2 + (q + W) * 4) by lia; rewrite Z.div_add by lia; reflexivity).
+    reflexivity.
+  Qed.
+End Realign.
+
+Lemma zslice_zslice {A} (l : list A) a n k n2 :
+  0 <= a -> 0 <= k -> 0 <= n2 -> k + n2 <= n -> a + n <= zlen l ->
+  zslice (zslice l a n) k n2 = zslice l (a + k) n2.
+Proof.
+  intros. destruct l as [|d0 l'] eqn:El.
+  { unfold zlen in *; cbn [length] in *. assert (n = 0 /\ k = 0 /\ a = 0 /\ n2 = 0) as (-> & -> & -> & ->) by lia. reflexivity. }
+  rewrite <- El in *. clear El l'.
+  apply (list_ext_znth d0).
+  - rewrite !zlen_zslice; try lia. rewrite zlen_zslice; lia.
+  - intros i Hi. rewrite zlen_zslice in Hi by (rewrite ?zlen_zslice; lia).
+    rewrite !znth_zslice by lia. f_equal. lia.
+Qed.
+
+Lemma demux_exact g S R' L' m :
+  1 <= ncols g -> 1 <= nrows g ->
+  0 <= R' -> 0 <= L' -> R' + L' <= zlen S -> 0 <= m -> m * fsize g <= L' ->
+  demux (nchan g) m (u16s (zslice S R' L')) = exact_data g S R' m.
+Proof.
+  intros Hc Hr HR HL Hlen Hm Hmf. unfold demux, exact_data.
+  assert (Hnch : fsize g = 2 * nchan g) by (unfold fsize, nchan; lia).
+  apply map_ext_in. intros i Hi. apply in_zrange in Hi.
+  apply map_ext_in. intros j Hj. apply in_zrange in Hj.
+  assert (Hidx : 2 * (i + j * nchan g) + 1 < L') by nia.
+  assert (Hjn : 0 <= j * nchan g) by nia.
+  rewrite u16s_znth by (rewrite ?zlen_zslice; lia).
+  rewrite !znth_zslice by lia. unfold u16_at.
+  f_equal; [f_equal; lia | f_equal; f_equal; lia].
+Qed.
+
+Section RealignTick.
+  Variable g : geom.
+  Hypothesis Hc : 1 <= ncols g.
+  Hypothesis Hr : 2 <= nrows g.
+  Let W := nwords g.
+  Let fs := fsize g.
+  Variable S : list Z.
+  Variables pos ph : Z.
+  Hypothesis Hpos4 : pos mod 4 = 0.
+  Hypothesis Hph4 : ph mod 4 = 0.
+  Hypothesis Hph : 0 <= ph < fs.
+  Hypothesis Hwf : gap_bits_wf g S pos ph.
+
+  Let t0w := ph / 4.
+
+  Lemma fpat_small x : 0 <= x < W -> fpat g x = (x <? ncols g).
+  Proof. intros Hx. unfold fpat. fold W. now rewrite Z.mod_small by lia. Qed.
+  Lemma fpat_shift x : fpat g (W + x) = fpat g x.
+  Proof.
+    unfold fpat. fold W. replace (W + x) with (x + 1 * W) by lia.
+    pose proof (W_bounds g Hc Hr). now rewrite Z_mod_plus_full.
+  Qed.
+
+  Variable R : Z.
+  Hypothesis HR0 : 0 <= R.
+  Hypothesis HRmod : R mod fs = 0.
+  Hypothesis HRpos : R <= pos < R + fs.        (* the cut lies in the frame that starts at the release point *)
+  Let gw := (pos - R) / 4.                      (* words of that frame still delivered *)
+  Hypothesis Hgood : gw < t0w \/ (t0w = 0 /\ ncols g < gw).
+  Let q := if t0w =? 0 then gw else gw + W - t0w.
+
+  Lemma realign_facts :
+    fs = 4 * W /\ 2 * ncols g <= W /\ 0 <= gw < W /\ 0 <= t0w < W /\ pos = R + 4 * gw /\ ph = 4 * t0w /\
+    R = 4 * (W * (R / fs)) /\ 0 <= R / fs /\ 1 <= q < W.
+  Proof.
+    pose proof (W_bounds g Hc Hr) as HW. fold W in HW.
+    assert (Hfs : fs = 4 * W) by reflexivity.
+    assert (HR4 : R = 4 * (W * (R / fs))).
+    { pose proof (Z.div_mod R fs ltac:(lia)). rewrite HRmod in H. lia. }
+    assert (Hpr : (pos - R) mod 4 = 0).
+    { rewrite Zminus_mod, Hpos4. rewrite HR4 at 1. rewrite Z.mul_comm, Z_mod_mult. reflexivity. }
+    assert (Egw : pos - R = 4 * gw).
+    { unfold gw. pose proof (Z.div_mod (pos - R) 4 ltac:(lia)). lia. }
+    assert (Et0 : ph = 4 * t0w).
+    { unfold t0w. pose proof (Z.div_mod ph 4 ltac:(lia)). lia. }
+    assert (0 <= R / fs) by (apply Z.div_pos; lia).
+    assert (Hq : 1 <= q < W).
+    { unfold q. destruct (t0w =? 0) eqn:E0; lia. }
+    repeat split; try lia.
+  Qed.
+
+  Lemma realign_bits b L :
+    0 <= L -> R + L <= zlen S -> b = zslice S R L ->
+    forall j, 0 <= j -> 4 * j + 2 < zlen b ->
+      fbit (znth 0 b (4 * j + 2)) = if j <? gw then fpat g j else fpat g (j - gw + t0w).
+  Proof.
+    intros HL Hlen -> j Hj Hjl. rewrite zlen_zslice in Hjl by lia. rewrite znth_zslice by lia.
+    destruct realign_facts as (Hfs & HW & Hgw & Ht0 & Epos & Eph & HR4 & HRf & Hq).
+    replace (R + (4 * j + 2)) with (4 * (W * (R / fs) + j) + 2) by lia.
+    change fbit with bit0. rewrite Hwf by (try nia; lia). fold W.
+    replace (pos / 4) with (W * (R / fs) + gw) by (apply Z.div_unique with (r := 0); lia).
+    fold t0w.
+    destruct (j <? gw) eqn:Ej.
+    - destruct (4 * (W * (R / fs) + j) <? pos) eqn:E; [|lia].
+      unfold fpat. fold W. replace (W * (R / fs) + j) with (j + (R / fs) * W) by lia. now rewrite Z_mod_plus_full.
+    - destruct (4 * (W * (R / fs) + j) <? pos) eqn:E; [lia|]. unfold fpat. fold W. f_equal. f_equal. lia.
+  Qed.
+
+  Lemma realign_ffb b L :
+    3 * fs <= L -> R + L <= zlen S -> b = zslice S R L ->
+    find_frame_bits b = (q, q + W, ncols g, true).
+  Proof.
+    intros HL Hlen Hb.
+    destruct realign_facts as (Hfs & HW & Hgw & Ht0 & Epos & Eph & HR4 & HRf & Hq).
+    assert (Hzb : zlen b = L) by (rewrite Hb; apply zlen_zslice; lia).
+    pose proof (realign_bits b L ltac:(lia) Hlen Hb) as Hbits.
+    set (a := if t0w =? 0 then ncols g
+              else if gw <=? ncols g then (if t0w <? ncols g then gw + ncols g - t0w else gw) else ncols g).
+    apply (ffb_pattern g Hc Hr _ b a q Hbits).
+    - unfold a, q. destruct (t0w =? 0) eqn:E0; [lia|].
+      destruct (gw <=? ncols g) eqn:E1; [destruct (t0w <? ncols g) eqn:E2|]; lia.
+    - intros j Hj. unfold a in Hj. destruct (t0w =? 0) eqn:E0.
+      + destruct (j <? gw) eqn:Ej; [|lia]. rewrite fpat_small by lia. lia.
+      + destruct (gw <=? ncols g) eqn:E1; [destruct (t0w <? ncols g) eqn:E2|].
+        * destruct (j <? gw) eqn:Ej; rewrite fpat_small by lia; lia.
+        * destruct (j <? gw) eqn:Ej; [|lia]. rewrite fpat_small by lia. lia.
+        * destruct (j <? gw) eqn:Ej; [|lia]. rewrite fpat_small by lia. lia.
+    - intros j Hj. unfold a, q in Hj. destruct (t0w =? 0) eqn:E0.
+      + destruct (j <? gw) eqn:Ej; [|lia]. rewrite fpat_small by lia. lia.
+      + destruct (gw <=? ncols g) eqn:E1; [destruct (t0w <? ncols g) eqn:E2|].
+        * destruct (j <? gw) eqn:Ej; [lia|]. rewrite fpat_small by lia. lia.
+        * destruct (j <? gw) eqn:Ej; [lia|]. rewrite fpat_small by lia. lia.
+        * destruct (j <? gw) eqn:Ej; rewrite fpat_small by lia; lia.
+    - intros j Hj. unfold q. destruct (t0w =? 0) eqn:E0.
+      + destruct (gw + j <? gw) eqn:Ej; [lia|]. f_equal. lia.
+      + destruct (gw + W - t0w + j <? gw) eqn:Ej; [lia|].
+        replace (gw + W - t0w + j - gw + t0w) with (W + j) by lia. apply fpat_shift.
+    - rewrite Hzb. apply Z.div_le_lower_bound; lia.
+  Qed.
+
+  Lemma realign_tick pend chunk stamp L :
+    3 * fs <= L -> R + L <= zlen S -> pend ++ chunk = zslice S R L ->
+    let m := L / fs - 1 in
+    reader_tick g pend chunk stamp =
+      {| t_pend := zslice S (R + 4 * q + m * fs) (L - 4 * q - m * fs);
+         t_rels := [4 * q; m * fs];
+         t_out := TBuf {| bm_data := exact_data g S (R + 4 * q) m; bm_stamp := stamp; bm_drop := true |} |}.
+  Proof.
+    intros HL Hlen Hb m.
+    destruct realign_facts as (Hfs & HW & Hgw & Ht0 & Epos & Eph & HR4 & HRf & Hq).
+    unfold reader_tick. rewrite Hb. fold fs. rewrite zlen_zslice by lia.
+    destruct (L <? 3 * fs) eqn:E3; [lia|].
+    rewrite (realign_ffb (zslice S R L) L HL Hlen eq_refl). fold W.
+    destruct (ncols g =? 0) eqn:E0; [lia|].
+    replace (Z.quot (q + W - q) (ncols g)) with (nrows g).
+    2:{ replace (q + W - q) with (nrows g * ncols g) by (unfold W, nwords; lia). now rewrite Z.quot_mul by lia. }
+    rewrite !Z.eqb_refl. cbn [negb orb].
+    destruct (q =? W) eqn:EqW; [lia|]. cbn [negb]. destruct (q =? 0) eqn:Eq0; [lia|].
+    destruct (fs - q * 4 <=? 0) eqn:Ede; [lia|].
+    replace (L - (fs - q * 4) - q * 4) with (L - fs) by lia.
+    rewrite zslice_zslice by lia. rewrite zskipn_zslice by lia.
+    unfold tick_demux. fold fs. rewrite zlen_zslice by lia.
+    assert (Em : (L - fs) / fs = m).
+    { unfold m. replace (L - fs) with (L + (-1) * fs) by lia. rewrite Z.div_add by lia. lia. }
+    rewrite Em.
+    assert (Hm2 : 2 <= m) by (unfold m; assert (3 <= L / fs) by (apply Z.div_le_lower_bound; lia); lia).
+    assert (Hmfs : m * fs <= L - fs).
+    { rewrite <- Em. rewrite Z.mul_comm. apply Z.mul_div_le. lia. }
+    destruct (m =? 0) eqn:Em0; [lia|].
+    rewrite u16s_length, zlen_zslice by lia.
+    assert (Hbuf : m * nchan g <= (L - fs) / 2) by (apply Z.div_le_lower_bound; [lia | unfold nchan; fold W; lia]).
+    destruct ((L - fs) / 2 <? m * nchan g) eqn:Eb; [lia|].
+    rewrite demux_exact by (try lia; fold fs; lia).
+    rewrite zskipn_zslice by lia.
+    f_equal.
+    - f_equal; lia.
+    - cbn [app]. f_equal. lia.
+    - replace (R + q * 4) with (R + 4 * q) by lia. reflexivity.
+  Qed.
+
+  (* after the tick the frames are aligned again (from the next frame boundary behind the cut) *)
+  Lemma realign_aligned_after : frame_bits_wf_from g S (R + 4 * q).
+  Proof.
+    destruct realign_facts as (Hfs & HW & Hgw & Ht0 & Epos & Eph & HR4 & HRf & Hq).
+    intros k Hk Hl.
+    replace (R + 4 * q + 4 * k + 2) with (4 * (W * (R / fs) + q + k) + 2) in * by lia.
+    rewrite Hwf by (try nia; lia). fold W.
+    replace (pos / 4) with (W * (R / fs) + gw) by (apply Z.div_unique with (r := 0); lia).
+    fold t0w.
+    destruct (4 * (W * (R / fs) + q + k) <? pos) eqn:E.
+    - exfalso. unfold q in E. destruct (t0w =? 0); lia.
+    - f_equal. unfold q. destruct (t0w =? 0) eqn:E0.
+      + f_equal. lia.
+      + replace (W * (R / fs) + (gw + W - t0w) + k - (W * (R / fs) + gw) + t0w) with (k + 1 * W) by lia.
+        now rewrite Z_mod_plus_full.
+  Qed.
+
+  (* the lift: the read that meets the gap, then every later chunking *)
+  Lemma realign_run S1 pend c stamp rest :
+    S = S1 ++ c ++ concat (map fst rest) ->
+    R <= zlen S1 -> pend = zslice S R (zlen S1 - R) ->
+    3 * fs <= zlen S1 + zlen c - R ->
+    let L := zlen S1 + zlen c - R in
+    let m := L / fs - 1 in
+    reader_run g pend ((c, stamp) :: rest) =
+      {| t_pend := zslice S (R + 4 * q + m * fs) (L - 4 * q - m * fs);
+         t_rels := [4 * q; m * fs];
+         t_out := TBuf {| bm_data := exact_data g S (R + 4 * q) m; bm_stamp := stamp; bm_drop := true |} |}
+      :: exact_run g S (zlen S1 + zlen c) (R + 4 * q + m * fs) rest.
+  Proof.
+    intros HS HR1 Hp HL L m.
+    destruct realign_facts as (Hfs & HW & Hgw & Ht0 & Epos & Eph & HR4 & HRf & Hq).
+    assert (HlenS : zlen S = zlen S1 + zlen c + zlen (concat (map fst rest))) by (rewrite HS, !zlen_app; lia).
+    pose proof (zlen_nonneg c) as Hc0. pose proof (zlen_nonneg (concat (map fst rest))) as Hr0.
+    assert (Hb : pend ++ c = zslice S R L).
+    { unfold L. replace (zlen S1 + zlen c - R) with ((zlen S1 - R) + zlen c) by lia.
+      rewrite zslice_app_split by lia. rewrite <- Hp. f_equal.
+      replace (R + (zlen S1 - R)) with (zlen S1) by lia. rewrite HS. now rewrite zslice_mid. }
+    cbn [reader_run]. rewrite (realign_tick pend c stamp L) by (auto; unfold L; lia). fold m. cbn [t_pend].
+    f_equal.
+    assert (Hm2 : 2 <= m) by (unfold m; assert (3 <= L / fs) by (apply Z.div_le_lower_bound; lia); lia).
+    assert (Hmfs : m * fs <= L - fs).
+    { unfold m. assert (fs * (L / fs) <= L) by (apply Z.mul_div_le; lia). lia. }
+    rewrite <- zlen_app.
+    apply (reader_run_exact_gen g Hc Hr S (R + 4 * q) ltac:(lia) realign_aligned_after) with (S1 := S1 ++ c).
+    - rewrite HS. now rewrite app_assoc.
+    - rewrite zlen_app. unfold L in *. lia.
+    - replace (R + 4 * q + m * fs - (R + 4 * q)) with (m * fs) by lia. apply Z_mod_mult.
+    - rewrite zlen_app. f_equal. unfold L. lia.
+  Qed.
+End RealignTick.
+
+(* ================================================================================================ *)
+(* witnesses: the defects of the tree before the fixes, and the finding that remains                 *)
+(* ================================================================================================ *)
+
+(* 2 columns x 3 rows, position-coded samples, the trigger flag of (frame f, row r) given by [flag] *)
+Definition wit_word (flag : Z -> Z -> bool) (f row col : Z) : list Z :=
+  let e := (f * 64 + row * 8 + col) mod 65536 in
+  let fb0 := (40000 + f * 256 + row * 32 + col * 4) mod 65536 in
+  let fb := fb0 - fb0 mod 4 + (if row =? 0 then 1 else 0) + (if flag f row then 2 else 0) in
+  [e mod 256; e / 256; fb mod 256; fb / 256].
+Definition wit_stream (flag : Z -> Z -> bool) (nframes : Z) : list Z :=
+  flat_map (fun f => flat_map (fun row => flat_map (fun col => wit_word flag f row col) (zrange 0 2)) (zrange 0 3))
+           (zrange 0 nframes).
+Definition wit_cut (S : list Z) (pos len : Z) : list Z := zfirstn pos S ++ zskipn (pos + len) S.
+Definition wit_ops (S : list Z) : list op :=
+  map (fun k => OChunk (zslice S (240 * k) 240) (k + 1)) (zrange 0 4).
+Definition wit_g : geom := {| ncols := 2; nrows := 3 |}.
+Definition wit_est (p c : Z) : Z := (c - p) * 50.      (* 50 frames per second, whole-second stamps *)
+
+(* flag high from frame 1 row 2 on: the first rising edge is row count 1*3+2 = 5 *)
+Definition wit_flag1 (f row : Z) : bool := (5 <=? f * 3 + row).
+Definition wit_ops1 : list op := [OChunk (wit_stream wit_flag1 4) 1].
+
+Lemma ext_trig_refuted_pre_fix_proof :
+  map b_ext (blocks_of (run wit_est false wit_g 1 (init_state wit_g) wit_ops1)) = [[6]] /\
+  map b_ext (blocks_of (run wit_est true wit_g 1 (init_state wit_g) wit_ops1)) = [[5]].
+Proof. split; vm_compute; reflexivity. Qed.
+
+(* reads of 10 frames, 40 bytes (1.5 frames + 4 bytes) lost after frame 20, stamps one second apart *)
+Definition wit_flag2 (f row : Z) : bool := ((f * 3 + row) mod 7 <? 2).
+Definition wit_S2 : list Z := wit_cut (wit_stream wit_flag2 50) 480 40.
+
+Lemma frames_monotone_refuted_pre_fix_proof :
+  map b_first (blocks_of (run wit_est false wit_g 1 (init_state wit_g) (wit_ops wit_S2))) = [0; 10; 70; 29] /\
+  map b_first (blocks_of (run wit_est true wit_g 1 (init_state wit_g) (wit_ops wit_S2))) = [0; 10; 70; 79].
+Proof. split; vm_compute; reflexivity. Qed.
+
+(* the same delivery: the row counts of the block that reports the loss (its first frame is 70, i.e. rows >= 210) *)
+Lemma ext_after_drop_refuted_pre_fix_proof :
+  znth [] (map b_ext (blocks_of (run wit_est false wit_g 1 (init_state wit_g) (wit_ops wit_S2)))) 2 = [65; 72; 78; 86] /\
+  znth [] (map b_ext (blocks_of (run wit_est true wit_g 1 (init_state wit_g) (wit_ops wit_S2)))) 2 = [214; 221; 228; 235].
+Proof. split; vm_compute; reflexivity. Qed.
+
+(* 42 bytes lost at byte 480: the word grid shifts by two bytes *)
+Definition wit_S3 : list Z := wit_cut (wit_stream (fun _ _ => false) 50) 480 42.
+Definition wit_cfg3 : cfg := {| c_g := wit_g; c_nsamp := 1; c_gap := Some (480, 18) |}.
+Definition wit_sys (c : cfg) (ops : list op) : list opres :=
+  run wit_est true (c_g c) (c_nsamp c) (init_state (c_g c)) ops.
+
+Definition is_silent_release (r : opres) : bool :=
+  match r with RTick [240] None => true | _ => false end.
+
+(* reads 3 and 4 are released whole, nothing is delivered, nothing is reported; the checker says no *)
+Lemma realign_witness :
+  stream_wf wit_cfg3 (stream_of (wit_ops wit_S3)) = true /\ stamps_increasing (wit_ops wit_S3) = true /\
+  map is_silent_release (wit_sys wit_cfg3 (wit_ops wit_S3)) = [false; false; true; true] /\
+  C04_check wit_cfg3 (combine (wit_ops wit_S3) (wit_sys wit_cfg3 (wit_ops wit_S3))) = false.
+Proof. repeat split; vm_compute; reflexivity. Qed.
+
+Lemma realign_after_gap_refuted_proof : ~ realign_after_gap_statement wit_sys.
+Proof.
+  intros H. destruct realign_witness as (Hwf & Hst & _ & Hck).
+  specialize (H wit_cfg3 (wit_ops wit_S3) ltac:(discriminate) Hwf Hst). congruence.
+Qed.
+
+(* ================================================================================================ *)
+(* non-vacuity examples                                                                              *)
+(* ================================================================================================ *)
+
+Lemma forall_zrange_dec (P : Z -> bool) n :
+  forallb P (zrange 0 n) = true -> forall k, 0 <= k < n -> P k = true.
+Proof. intros H k Hk. rewrite forallb_forall in H. apply H. apply in_zrange. lia. Qed.
+
+(* 8 frames of the 2x3 witness stream satisfy the hypothesis of reader_frame_exact *)
+Lemma example_frame_bits_wf : frame_bits_wf wit_g (wit_stream wit_flag2 8).
+Proof.
+  intros k Hk Hl.
+  assert (Hn : zlen (wit_stream wit_flag2 8) = 192) by (vm_compute; reflexivity).
+  rewrite Hn in Hl.
+  pose proof (forall_zrange_dec
+           (fun k => Bool.eqb (bit0 (znth 0 (wit_stream wit_flag2 8) (4 * k + 2))) (k mod nwords wit_g <? ncols wit_g)) 48
+           ltac:(vm_compute; reflexivity) k ltac:(lia)) as H.
+  apply Bool.eqb_prop in H. exact H.
+Qed.
+
+(* 3 columns x 2 rows: 30 position-coded frames, 28 bytes lost at byte 252 (three words into frame 10): the cut
+   lies in the frame that starts at the release point 240, 3 words carried, first surviving word at offset 4 *)
+Definition ex_g : geom := {| ncols := 3; nrows := 2 |}.
+Definition ex_stream : list Z :=
+  flat_map (fun f => flat_map (fun w => let fb := 40000 + 256 * f + 4 * w + (if w <? 3 then 1 else 0) in
+                                        [f; w; fb mod 256; fb / 256]) (zrange 0 6)) (zrange 0 30).
+Definition ex_S : list Z := wit_cut ex_stream 252 28.
+
+Lemma example_gap_bits_wf : gap_bits_wf ex_g ex_S 252 16.
+Proof.
+  intros k Hk Hl.
+  assert (Hn : zlen ex_S = 692) by (vm_compute; reflexivity).
+  rewrite Hn in Hl.
+  pose proof (forall_zrange_dec
+           (fun k => Bool.eqb (bit0 (znth 0 ex_S (4 * k + 2)))
+                       (if 4 * k <? 252 then k mod nwords ex_g <? ncols ex_g
+                        else (k - 252 / 4 + 16 / 4) mod nwords ex_g <? ncols ex_g)) 173
+           ltac:(vm_compute; reflexivity) k ltac:(lia)) as H.
+  apply Bool.eqb_prop in H. exact H.
+Qed.
+
+Lemma realign_next_boundary :
+  forall g pos ph R, 1 <= ncols g -> 2 <= nrows g ->
+    pos mod 4 = 0 -> ph mod 4 = 0 -> 0 <= ph < fsize g -> 0 <= R -> R mod fsize g = 0 -> R <= pos < R + fsize g ->
+    let q := if ph / 4 =? 0 then (pos - R) / 4 else (pos - R) / 4 + nwords g - ph / 4 in
+    R + 4 * q = next_boundary g pos ph.
+Proof.
+  intros g pos ph R Hc Hr Hp4 Hph4 Hph HR0 HRm HRp q. unfold next_boundary.
+  pose proof (W_bounds g Hc Hr) as HW. assert (Hfs : fsize g = 4 * nwords g) by reflexivity.
+  assert (HR4 : R mod 4 = 0).
+  { pose proof (Z.div_mod R (fsize g) ltac:(lia)). rewrite HRm in H.
+    replace R with ((nwords g * (R / fsize g)) * 4) by lia. apply Z_mod_mult. }
+  assert (Egw : pos - R = 4 * ((pos - R) / 4)).
+  { pose proof (Z.div_mod (pos - R) 4 ltac:(lia)). rewrite Zminus_mod, Hp4, HR4 in H. cbn in H. lia. }
+  assert (Et0 : ph = 4 * (ph / 4)) by (pose proof (Z.div_mod ph 4 ltac:(lia)); lia).
+  unfold q. destruct (ph / 4 =? 0) eqn:E0.
+  - assert (ph = 0) by lia. subst ph. rewrite Z.sub_0_r, Z_mod_same_full. lia.
+  - rewrite Z.mod_small by lia. lia.
+Qed.
+
+Lemma example_reader_hyps :
+  1 <= ncols wit_g /\ 2 <= nrows wit_g /\ frame_bits_wf wit_g (wit_stream wit_flag2 8).
+Proof. split; [cbn; lia|]. split; [cbn; lia|]. exact example_frame_bits_wf. Qed.
+
+Lemma example_realign_hyps :
+  1 <= ncols ex_g /\ 2 <= nrows ex_g /\ 252 mod 4 = 0 /\ 16 mod 4 = 0 /\ 0 <= 16 < fsize ex_g /\
+  gap_bits_wf ex_g ex_S 252 16 /\ 240 mod fsize ex_g = 0 /\ 240 <= 252 < 240 + fsize ex_g /\
+  (252 - 240) / 4 < 16 / 4.
+Proof.
+  split; [cbn; lia|]. split; [cbn; lia|]. split; [reflexivity|]. split; [reflexivity|].
+  split; [cbn; lia|]. split; [exact example_gap_bits_wf|]. split; [reflexivity|]. split; [cbn; lia|]. reflexivity.
+Qed.
